@@ -1,9 +1,11 @@
 """C02 - attach, move, detach and children assignment have exactly the specified effect."""
+import gc
+
 from hypothesis import strategies as st
 
 from anytree import AnyNode, Node, SymlinkNode
 
-from .. import mut, shapes
+from .. import mut, nodes, shapes
 from ..core import Violation
 
 PROP_ID = "C02"
@@ -14,7 +16,8 @@ RULE = (
     "every parent assignment (incl. None, self, descendants, non-node values for NodeMixin classes) x every children sequence of "
     "length <= N over the labels (repeats, self, ancestors, descendants, other parents' children, own children re-ordered) x every "
     "deletion, for a NodeMixin and a slotted LightNodeMixin class; constructors of Node/AnyNode/SymlinkNode with every parent= and "
-    "children= argument on forests over N <= 2/3 nodes. Generated: Hypothesis histories (<= 7 nodes, <= 30 calls) over 10 class choices. "
+    "children= argument on forests over N <= 2/3 nodes. Generated: Hypothesis histories (<= 7 nodes, <= 30 calls) over 14 class choices, read-free histories, and "
+    "histories built inside a helper that hands back one or two nodes only (the rest of the tree is kept alive by its links alone; parent chain and whole tree are then read from the kept node). "
     "Non-trivial = a successful call that changes at least one link, or a refusal. Enumerated distinct by construction; histories hashed."
 )
 ASSUMPTIONS = [
@@ -64,7 +67,68 @@ def check_blind(case, acc):
     acc.tag("steps", len(records))
 
 
+OWNERLESS_CLASSES = ["Node", "AnyNode", "PlainNM", "SlotLM", "DictLM", "SymlinkNode"]
+
+
+def _ownerless_build(case):
+    """Run the successful calls of a history in a scope of its own and hand back only the kept nodes (and the model state)."""
+    make = nodes.factory(case["cls"])
+    family = "LM" if case["cls"] in ("SlotLM", "DictLM") else "NM"
+    universe = [make(i) for i in range(case["n"])]
+    state = mut.all_roots(case["n"])
+    for op in case["ops"]:
+        verdict, new = mut.spec(state, op, family)
+        if verdict != "ok":
+            continue  # refused calls are judged elsewhere; here only the links that successful calls leave behind
+        exc = mut.execute(universe, op)
+        if exc is not None:
+            problem = "%s on %s raised %s: %s" % (op, state, type(exc).__name__, exc)
+            del exc
+            return None, problem
+        state = new
+    return [universe[i % case["n"]] for i in case["keep"]], state
+
+
+def check_ownerless(case, acc):
+    """The program keeps references to a few nodes only (a helper built the tree and returned one node): every link
+    made by the calls is still there - a node keeps its parent and its children although nobody else holds them."""
+    kept, state = _ownerless_build(case)
+    if kept is None:
+        raise Violation("spurious-refusal", state)
+    gc.collect()
+    keep = [i % case["n"] for i in case["keep"]]
+    nontrivial = False
+    for label, node in zip(keep, kept):
+        chain = [label]
+        while state[chain[-1]][0] is not None:
+            chain.append(state[chain[-1]][0])
+        got = []
+        cur = node
+        while cur is not None and len(got) <= case["n"]:
+            got.append(int(cur.name))
+            top = cur
+            cur = cur.parent
+        if got != chain:
+            raise Violation("effect", "history %s, only nodes %s kept: the parent chain of node %d is %s, model %s" % (case["ops"], keep, label, got, chain))
+
+        def shape(n):
+            return [int(n.name), [shape(c) for c in n.children]]
+
+        def model_shape(i):
+            return [i, [model_shape(c) for c in state[i][1]]]
+
+        if shape(top) != model_shape(chain[-1]):
+            raise Violation("effect", "history %s, only nodes %s kept: the tree of node %d is %s, model %s" % (case["ops"], keep, label, shape(top), model_shape(chain[-1])))
+        if chain[-1] not in keep and len(chain) >= 2:
+            nontrivial = True
+    acc.nontrivial(nontrivial)
+    acc.tag("histories_with_few_nodes_kept_alive")
+    acc.tag("kept_node_below_an_unreferenced_root", nontrivial)
+
+
 def check_case(case, acc):
+    if case.get("kind") == "ownerless":
+        return check_ownerless(case, acc)
     if case.get("kind") == "blind":
         return check_blind(case, acc)
     if case.get("kind") == "construct":
@@ -207,6 +271,8 @@ def plan(tier, seed):
     for i in range(nshards):
         tasks.append({"engine": "hyp", "examples": examples, "seed": seed * 1000 + i})
         tasks.append({"engine": "blind-hyp", "examples": examples, "seed": seed * 1000 + 300 + i})
+        if i % 4 == 0:
+            tasks.append({"engine": "ownerless-hyp", "examples": examples, "seed": seed * 1000 + 600 + i})
     for spec in ("Node", "SlotLM", "AnyNode", "SymlinkNode"):
         for n, length in ([(2, 3), (3, 2)] if tier == "quick" else [(2, 4), (3, 3)]):
             shards = 4 if (n, length) == (2, 3) else nshards
@@ -235,6 +301,15 @@ def random_cases(draw):
 
 
 def run_task(task, acc):
+    if task["engine"] == "ownerless-hyp":
+        @st.composite
+        def ownerless(draw):
+            cls = draw(st.sampled_from(OWNERLESS_CLASSES))
+            hist = draw(mut.history_strategy(max_nodes=7, max_steps=15, faults="none", invalid=False, class_specs=["HNM"]))
+            keep = draw(st.lists(st.integers(0, 6), min_size=1, max_size=2))
+            return {"kind": "ownerless", "cls": cls, "n": hist["n"], "ops": [s["op"] for s in hist["steps"]], "keep": keep}
+
+        return acc.run_hypothesis(check_case, ownerless(), task["examples"], task["seed"])
     if task["engine"] == "blind-enum":
         return acc.run_enum(check_case, mut.blind_sequences(task["spec"], task["n"], task["length"], task["index"], task["count"]))
     if task["engine"] == "blind-hyp":
